@@ -47,6 +47,11 @@ class Contract:
         self.pure = kw.pop("pure", False)           # result is a function of the arguments (no effects)
         self.assumed = kw.pop("assumed", False)     # external / trusted: never verified, only assumed
         self.crash = _named(kw.pop("crash", []), "crash")  # crash invariant checked after every FS step
+        # rely / guarantee (concurrency, DESIGN C11): two-state clauses over the shared file system.  `rely`: what other processes may
+        # do between any two of this function's file-system steps (assumed at every interference point); `guar`: what each of this
+        # function's own steps does (an obligation per step).  In both, old(...) is the state just before the step / the interference.
+        self.rely = _named(kw.pop("rely", []), "rely")
+        self.guar = _named(kw.pop("guar", []), "guar")
         self.events = kw.pop("events", [])          # trace obligations: [(name, python callable(path) -> z3 Bool/bool)]
         self.fn_params = kw.pop("fn_params", {})    # param -> dict(log='calls') : opaque callables with call log
         self.notes = kw.pop("notes", "")
